@@ -716,7 +716,7 @@ func runMaster(count, first, workers int, outPath string, quota, mult int) int {
 // still diverges is reported as a run of its own (its key names the operation that first differs
 // and the fault before it), and the run that noticed it is reported under the same key.
 func reportAttributed(w *bufio.Writer, s *cfsim.Script, twin *cfsim.Twin, n int, id, planName string, p cfsim.Plan, res *cfsim.FaultResult, model bool) {
-	late := res.Viol != nil && len(p) > 1 && !strings.HasPrefix(res.Viol.Key, "process-exits") && !strings.HasPrefix(res.Viol.Key, "address-index-differs-after-fault")
+	late := res.Viol != nil && (len(p) > 1 || hasPair(p)) && !strings.HasPrefix(res.Viol.Key, "process-exits") && !strings.HasPrefix(res.Viol.Key, "address-index-differs-after-fault")
 	type red struct {
 		id  string
 		res *cfsim.FaultResult
@@ -730,9 +730,30 @@ func reportAttributed(w *bufio.Writer, s *cfsim.Script, twin *cfsim.Twin, n int,
 		sort.Ints(ops)
 		for _, i := range ops {
 			single := cfsim.Plan{i: p[i]}
-			if r2, err := cfsim.RunFaultPlanTracked(s, single, twin); err == nil && r2.Viol != nil {
-				reds = append(reds, red{fmt.Sprintf("%d:%s", n, single), r2})
+			r2, err := cfsim.RunFaultPlanTracked(s, single, twin)
+			if err != nil || r2.Viol == nil {
+				continue
 			}
+			// a pair of faults: is one of the two enough?  (the first alone; the second alone, at the
+			// place of the fault-free execution where the operation makes the same call)
+			if p[i].D > 0 && len(r2.Events) > 0 && len(r2.Events[0].Hits) >= 2 && i < len(twin.Info) {
+				cands := []int{p[i].J}
+				want := r2.Events[0].Hits[1].String()
+				for c, ci := range twin.Info[i] {
+					if ci.String() == want {
+						cands = append(cands, c+1)
+						break
+					}
+				}
+				for _, j := range cands {
+					one := cfsim.Plan{i: cfsim.FaultSpec{J: j}}
+					if r3, err := cfsim.RunFaultPlanTracked(s, one, twin); err == nil && r3.Viol != nil {
+						single, r2 = one, r3
+						break
+					}
+				}
+			}
+			reds = append(reds, red{fmt.Sprintf("%d:%s", n, single), r2})
 		}
 		if len(reds) > 0 {
 			res.Viol.What = "[noticed as " + res.Viol.Key + "; cause: plan " + reds[0].id + "] " + res.Viol.What
@@ -743,4 +764,13 @@ func reportAttributed(w *bufio.Writer, s *cfsim.Script, twin *cfsim.Twin, n int,
 	for _, r := range reds {
 		report(w, n, r.id, "attributed", 0, r.res, false)
 	}
+}
+
+func hasPair(p cfsim.Plan) bool {
+	for _, sp := range p {
+		if sp.D > 0 {
+			return true
+		}
+	}
+	return false
 }
